@@ -163,6 +163,10 @@ def run(tier):
                 lim.append('extern %s la[%d]; unsigned long ls = sizeof la;' % (ety, n))
                 lim.append('extern %s lb[2][%d];' % (ety, n // 2))
                 lim.append('typedef %s lt[%d]; unsigned long lu = sizeof(lt) / 2;' % (ety, n))
+                if n >= q // 2:
+                    lim.append('%s lx[] = { [%d] = { 0 } };' % (ety, n))
+                    lim.append('%s ly[4] = { [%d] = { 0 } };' % (ety, n))
+                    lim.append('struct { int k; %s m[2]; } lz = { .m[%d] = { 0 } };' % (ety, n))
     for v in (0x7fffffff, 0x80000000, 0xffffffff, 0x100000000, 0x7fffffffffffffff, 0x8000000000000000, 0xffffffffffffffff):
         lim += ['int ld[] = { [%d] = 1 };' % v, 'enum { LE = %d, LF };' % v, 'enum { LG = -%d - 1 };' % v, 'int lh = 1 << (%d & 63); int li[(%d >> 40) + 1];' % (v, v), 'struct { int b : %d; } lj;' % (v & 127),
                 'char lk[%d]; char *lp = &lk[%d];' % (v, v - 1), 'int ll = sizeof(char[%d]) > 1;' % v, '_Static_assert(%d, "x");' % v, 'int lm = %d + 1 > 0;' % v, 'void lf(void) { switch (0) { case %d: ; case %d - 1: ; } }' % (v, v)]
